@@ -438,6 +438,12 @@ def _iter_all(M, fr, n, a):
         okk, x = it_next(M, fr, a[0])
         if not okk: return True
         if not M.branch(M.call_closure(fr, a[1], [x])): return False
+@reg(r'^<.* as std::iter::Iterator>::partition$')
+def _iter_partition(M, fr, n, a):
+    yes, no = [], []
+    for x in drain_all(M, fr, to_iter(M, fr, a[0])):
+        (yes if M.branch(M.call_closure(fr, a[1], [Ref(Cell(x))])) else no).append(x)
+    return Agg('()', [VecV(yes), VecV(no)])
 @reg(r'^<.* as std::iter::Iterator>::for_each$')
 def _iter_for_each(M, fr, n, a):
     for x in drain_all(M, fr, to_iter(M, fr, a[0])): M.call_closure(fr, a[1], [x])
@@ -449,6 +455,51 @@ def _iter_fold(M, fr, n, a):
         okk, x = it_next(M, fr, a[0])
         if not okk: return acc
         acc = M.call_closure(fr, a[2], [acc, x])
+@reg(r'^<.* as std::iter::Iterator>::try_fold$')
+def _iter_try_fold(M, fr, n, a):
+    """try_fold over Result / Option accumulators: stop at the first Err / None"""
+    it = to_iter(M, fr, D(M, a[0]) if isinstance(a[0], Ref) else a[0]); acc = a[1]; kind = None
+    while True:
+        okk, x = it_next(M, fr, it)
+        if not okk: break
+        r = M.call_closure(fr, a[2], [acc, x])
+        if not isinstance(r, EnumV) or r.name not in ('Result', 'Option'): raise Unsupported('try_fold over %r' % (r,))
+        kind = r.name; d = disc_of(M, r)
+        if (kind == 'Result' and d == 1) or (kind == 'Option' and d == 0): return r
+        acc = r.f[0]
+    if kind is None:
+        m = re.search(r'try_fold::<[^,]*, .*, (std::result::Result|std::option::Option)<', M.cur_callee)
+        kind = 'Option' if m and m.group(1).endswith('Option') else 'Result'
+    return ok(acc) if kind == 'Result' else some(acc)
+@reg(r'^(?:core|std)::char::methods::<impl char>::to_digit$')
+def _char_to_digit(M, fr, n, a):
+    c = simp(a[0]); radix = simp(a[1])
+    if is_sym(radix): raise Unsupported('symbolic radix')
+    if not is_sym(c):
+        ch = chr(c)
+        if ch.isascii() and ch.isalnum() and int(ch, 36) < radix: return some(int(ch, 36))
+        return none()
+    isd = z3.And(z3.UGE(c, 48), z3.ULE(c, min(57, 48 + radix - 1)))
+    up = z3.And(z3.UGE(c, 65), z3.ULE(c, 65 + radix - 11)) if radix > 10 else z3.BoolVal(False)
+    lo = z3.And(z3.UGE(c, 97), z3.ULE(c, 97 + radix - 11)) if radix > 10 else z3.BoolVal(False)
+    if not M.branch(z3.Or(isd, up, lo)): return none()
+    return some(z3.If(isd, c - 48, z3.If(up, c - 55, c - 87)))
+@reg(r'^core::num::<impl (\w+)>::(trailing_zeros|leading_zeros|count_ones)$')
+def _bit_counts(M, fr, n, a):
+    m = re.match(r'^core::num::<impl (\w+)>::(\w+)$', n); ty, op = m.group(1), m.group(2); w = INT_W[ty]
+    x = simp(a[0])
+    if is_sym(x): raise Unsupported(op + ' of a symbolic value')
+    x &= (1 << w) - 1
+    if op == 'count_ones': return bin(x).count('1')
+    if x == 0: return w
+    if op == 'trailing_zeros': return (x & -x).bit_length() - 1
+    return w - x.bit_length()
+@reg(r'^std::option::Option::is_some_and$|^std::option::Option::is_none_or$|^std::result::Result::is_ok_and$')
+def _is_some_and(M, fr, n, a):
+    o = a[0]; d = disc_of(M, o)
+    if n.endswith('is_some_and'): return M.call_closure(fr, a[1], [o.f[0]]) if d == 1 else False
+    if n.endswith('is_none_or'): return M.call_closure(fr, a[1], [o.f[0]]) if d == 1 else True
+    return M.call_closure(fr, a[1], [o.f[0]]) if d == 0 else False
 @reg(r'^<.* as std::iter::Iterator>::count$')
 def _iter_count(M, fr, n, a): return len(drain_all(M, fr, to_iter(M, fr, a[0])))
 @reg(r'^<.* as std::iter::Iterator>::last$')
@@ -1384,8 +1435,7 @@ def _from_str_radix(M, fr, n, a):
     if not bs: return E()
     if isinstance(bs[0], int) and bs[0] == 43: bs = bs[1:]
     if not bs: return E()
-    W = w + 8; acc = 0; sym = False
-    if len(bs) * (radix.bit_length()) > W - 8 + 8 and not all(isinstance(b, int) for b in bs): raise Unsupported('digit string too long for the radix model')
+    W = max(w + 8, len(bs) * radix.bit_length() + 8); acc = 0; sym = False      # wide enough for any digit string of this length: the accumulator never wraps
     for b in bs:
         if isinstance(b, int):
             c = chr(b)
@@ -1396,9 +1446,8 @@ def _from_str_radix(M, fr, n, a):
             isd = z3.And(z3.UGE(b, 48), z3.ULE(b, min(57, 48 + radix - 1)))
             up = z3.And(z3.UGE(b, 65), z3.ULE(b, 65 + radix - 11)) if radix > 10 else z3.BoolVal(False)
             lo = z3.And(z3.UGE(b, 97), z3.ULE(b, 97 + radix - 11)) if radix > 10 else z3.BoolVal(False)
-            k = M.choose([isd, up, lo, z3.Not(z3.Or(isd, up, lo))])
-            if k == 3: return E()
-            d = z3.ZeroExt(W - 8, b - [48, 55, 87][k]); sym = True
+            if not M.branch(z3.Or(isd, up, lo)): return E()
+            d = z3.ZeroExt(W - 8, z3.If(isd, b - 48, z3.If(up, b - 55, b - 87))); sym = True      # no fork on the digit class
         acc = (acc * radix + d) if not (isinstance(acc, int) and isinstance(d, int)) else acc * radix + d
         if not isinstance(acc, int) and acc.size() != W: acc = z3.ZeroExt(W - acc.size(), acc)
     if isinstance(acc, int): return ok(acc) if acc < (1 << w) else E()
